@@ -429,6 +429,60 @@ pub fn judge_line(rep: &Reporter, line: &str, stats: &[AtomicU64; 3]) {
     }
 }
 
+/// the other public way from text to commands: `ConsoleUciRx` (what the binary's stdin loop is).
+/// The line, newline-terminated as `read_line` delivers it, followed by `quit`: the callback must
+/// receive exactly what the parser returns for that text, then the quit.
+pub fn judge_line_via_console(rep: &Reporter, line: &str, n: &AtomicU64) {
+    use inkayaku_uci::console::{ConsoleUciRx, ConsoleUciRxError};
+    use std::cell::RefCell;
+    if line.contains('\n') || line.contains('\r') {
+        return;
+    }
+    n.fetch_add(1, Ordering::Relaxed);
+    let raw = format!("{}\n", line);
+    let describe = |r: &Result<UciCommand, String>| -> String {
+        match r {
+            Ok(c) => format!("Ok({:?})", to_exp(c)),
+            Err(e) => format!("Err({})", e),
+        }
+    };
+    let direct: Result<UciCommand, String> = match guarded(|| CommandParser::new(&raw).parse()) {
+        Ok(r) => r.map_err(|e| format!("{:?}", e)),
+        Err(_) => return, // a panicking parser is judge_line's finding
+    };
+    let feed = RefCell::new(vec![raw.clone(), "quit\n".to_string()].into_iter());
+    let got: RefCell<Vec<Result<UciCommand, String>>> = RefCell::new(Vec::new());
+    let r = guarded(|| {
+        let rx = ConsoleUciRx::new(
+            || Ok(feed.borrow_mut().next().unwrap_or_else(|| "quit\n".to_string())),
+            |c: Result<UciCommand, ConsoleUciRxError>| {
+                let item = match c {
+                    Ok(c) => Ok(c),
+                    Err(ConsoleUciRxError::CommandParseError(e)) => Err(format!("{:?}", e)),
+                    Err(other) => Err(format!("system error: {:?}", other)),
+                };
+                let mut g = got.borrow_mut();
+                if g.len() < 8 {
+                    g.push(item);
+                }
+            },
+        );
+        rx.start();
+    });
+    let case = |extra: Value| json!({"kind": "uci_console_line", "line": line, "detail": extra});
+    if let Err(m) = r {
+        rep.report(format!("console_reader:panic:{}", short(&m)), case(json!({"panic": m})));
+        return;
+    }
+    let got = got.into_inner();
+    let want_len = if matches!(direct, Ok(UciCommand::Quit)) { 1 } else { 2 };
+    let first_ok = got.first().map(|g| describe(g) == describe(&direct)).unwrap_or(false);
+    if !first_ok || got.len() != want_len {
+        let sig = if got.len() < want_len && matches!(got.first(), Some(Ok(UciCommand::Quit))) { "console_reader:line_read_as_quit" } else if !first_ok { "console_reader:differs_from_parser" } else { "console_reader:wrong_number_of_commands" };
+        rep.report(sig.to_string(), case(json!({"parser": describe(&direct), "delivered_by_the_reader": got.iter().map(|g| describe(g)).collect::<Vec<_>>()})));
+    }
+}
+
 fn judge_move_text(rep: &Reporter, s: &str, stats: &[AtomicU64; 3]) {
     let class = classify_move_token(s);
     let got = guarded(|| UciMove::from_str(s));
@@ -717,6 +771,15 @@ pub fn run(tier: Tier) -> i32 {
     let t0 = Instant::now();
     par_map(&lines, |l| judge_line(&rep, l, &stats));
     let line_secs = t0.elapsed().as_secs_f64();
+    // every line once more through the console reader (blank and blank-only lines included)
+    let t_console = Instant::now();
+    let console_n = AtomicU64::new(0);
+    let mut console_lines: Vec<String> = lines.clone();
+    for blank in ["", " ", "  ", "\t", " \t ", "\u{a0}", "\u{2003}"] {
+        console_lines.push(blank.to_string());
+    }
+    par_map(&console_lines, |l| judge_line_via_console(&rep, l, &console_n));
+    let console_secs = t_console.elapsed().as_secs_f64();
 
     // move texts
     let mstats: [AtomicU64; 3] = Default::default();
@@ -781,6 +844,7 @@ pub fn run(tier: Tier) -> i32 {
     cov.set("grammar_base_lines", json!(n_base));
     cov.set("distinct_lines_incl_spacing_prefix_substitution_variants", json!(lines.len()));
     cov.set("length_sweep_lines_up_to_65537_or_262145_tokens", json!(n_sweep));
+    cov.set("lines_also_fed_through_the_console_reader", json!({"lines": console_n.load(Ordering::Relaxed), "secs": console_secs}));
     cov.set("lines_expected_command", json!(stats[0].load(Ordering::Relaxed)));
     cov.set("lines_expected_error", json!(stats[1].load(Ordering::Relaxed)));
     cov.set("lines_unspecified_no_panic_only", json!(stats[2].load(Ordering::Relaxed)));
@@ -806,6 +870,7 @@ pub fn replay(case: &Value) -> i32 {
     match case["kind"].as_str().unwrap_or("") {
         "uci_line" => judge_line(&rep, case["line"].as_str().unwrap_or(""), &stats),
         "move_text" => judge_move_text(&rep, case["text"].as_str().unwrap_or(""), &stats),
+        "uci_console_line" => judge_line_via_console(&rep, case["line"].as_str().unwrap_or(""), &stats[0]),
         _ => return 2,
     }
     println!("replay: {} violating case(s) reproduced", rep.violation_count());
